@@ -7,6 +7,7 @@ package stage
 import (
 	"encoding/json"
 	"fmt"
+	"os"
 	"sort"
 	"strings"
 	"time"
@@ -50,7 +51,16 @@ type Result struct {
 	ItemBytes int           `json:"item_bytes"`
 	Micros    int64         `json:"micros"`
 	EntryJSON string        `json:"entry_json,omitempty"`
+	// with VERIF_STAGE_DUMP=1: the request / response maps exactly as Summarize and Represent
+	// receive them (after both JSON round trips), for the model-vs-implementation check of C11
+	StageReq  json.RawMessage `json:"stage_req,omitempty"`
+	StageResp json.RawMessage `json:"stage_resp,omitempty"`
 }
+
+var stageDump = os.Getenv("VERIF_STAGE_DUMP") == "1"
+
+// StageDumpLimit bounds the size of the dumped maps of one item.
+const StageDumpLimit = 48 << 10
 
 func guard(stage string, res *Result, f func()) (ok bool) {
 	defer func() {
@@ -171,6 +181,16 @@ func Run(ext *api.Extension, item *api.OutputChannelItem, keepEntry bool) (res R
 	}
 	res.Protocol = entry2.Protocol.Name + "/" + entry2.Protocol.Version + "/" + entry2.Protocol.Abbreviation
 	res.Macro = entry2.Protocol.Macro
+	if stageDump {
+		switch entry2.Protocol.Name {
+		case "redis", "amqp", "kafka":
+			rq, err1 := json.Marshal(entry2.Request)
+			rs, err2 := json.Marshal(entry2.Response)
+			if err1 == nil && err2 == nil && len(rq)+len(rs) <= StageDumpLimit {
+				res.StageReq, res.StageResp = rq, rs
+			}
+		}
+	}
 	var base *api.BaseEntry
 	if !guard("summarize", &res, func() { base = ext.Dissector.Summarize(&entry2) }) {
 		return
